@@ -486,16 +486,19 @@ func EVAL(ctx context.Context, ast MalType, env EnvType) (res MalType, e error) 
 			switch first(last) {
 			case "catch":
 				finallyDo = nil
+				if len(last.(List).Val) < 3 {
+					return nil, lisperror.NewLispError(errors.New("catch must have 2 arguments at least"), ast)
+				}
 				catchBind = last.(List).Val[1]
 				catchDo = List{Val: last.(List).Val[2:]}
 				tryDo = List{Val: lst[1 : len(lst)-1]}
-				if len(catchDo.(List).Val) == 0 {
-					return nil, lisperror.NewLispError(errors.New("catch must have 2 arguments at least"), ast)
-				}
 			case "finally":
 				finallyDo = List{Val: last.(List).Val[1:]}
 				switch first(prelast) {
 				case "catch":
+					if len(prelast.(List).Val) < 3 {
+						return nil, lisperror.NewLispError(errors.New("catch must have 2 arguments at least"), ast)
+					}
 					catchBind = prelast.(List).Val[1]
 					catchDo = List{Val: prelast.(List).Val[2:]}
 					tryDo = List{Val: lst[1 : len(lst)-2]}
@@ -509,6 +512,9 @@ func EVAL(ctx context.Context, ast MalType, env EnvType) (res MalType, e error) 
 				catchBind = nil
 				catchDo = nil
 				tryDo = List{Val: lst[1:]}
+			}
+			if catchDo != nil && !Q[Symbol](catchBind) {
+				return nil, lisperror.NewLispError(fmt.Errorf("catch requires a symbol to bind the error (was of type %T)", catchBind), ast)
 			}
 			exp, e := func() (res MalType, err error) {
 				defer malRecover(&err)
@@ -627,7 +633,7 @@ func EVAL(ctx context.Context, ast MalType, env EnvType) (res MalType, e error) 
 }
 
 func first(list MalType) string {
-	if list != nil && Q[List](list) && Q[Symbol](list.(List).Val[0]) {
+	if list != nil && Q[List](list) && len(list.(List).Val) > 0 && Q[Symbol](list.(List).Val[0]) {
 		return list.(List).Val[0].(Symbol).Val
 	}
 	return ""
